@@ -2123,10 +2123,17 @@ insert_list:
         RunQ rq;
         auto last_idle = now;
         auto vcpu = rq.current->get_vcpu();
+        // the run-queue lock taken by AtomicRunQ(rq) must be released before
+        // try_work_stealing(): a temporary lives until the end of the whole
+        // condition, so testing single() inline kept this vCPU's run-queue
+        // lock held while waiting for vcpu_list_lock, whose holder may be
+        // waiting for that very run-queue lock in order to steal from us
+        auto has_work = [&]() __attribute__((always_inline)) {
+            return unlikely(resume_threads_inlined(vcpu, rq) > 0) ||
+                   likely(!AtomicRunQ(rq).single());
+        };
         while (vcpu->state != states::DONE) {
-            while (unlikely(resume_threads_inlined(vcpu, rq) > 0) ||
-                   likely(!AtomicRunQ(rq).single())   ||
-                   likely(try_work_stealing(vcpu))) {
+            while (has_work() || likely(try_work_stealing(vcpu))) {
                 thread_yield();
                 if (vcpu->state == states::DONE)
                     break;
